@@ -40,6 +40,7 @@
 
    WHICH OPERATOR STATES WHICH PART OF THE PROPERTY
      NameRoundTrip, TextRoundTrip, JSONRoundTrip     the three round trips, every level
+     ContextFree, AnswersEverywhere                  ... wherever the caller stands (see Contexts)
      MustRefuse, MustAccept, RefusalIsNoOp           action properties of Register
      AnswersToTitle, UsesGivenTags, GatedAsTreated, RoutedIfRequested   after acceptance
      ShortTagLen                                     n characters without custom tags
@@ -54,6 +55,20 @@
      "JSONNoUnquote"  UnmarshalJSON parses the quoted JSON text as if it were the bare name
      "TagBytes"       ShortTag cuts/pads UTF-8 bytes, not characters
      "ErrDevNoArg"    RegWithPrintToErrorDevice() without arguments (the documented form) is ignored
+     "BusyWhileReporting"  while ParseLevel is reporting an unknown name through the default logger
+                      every lookup made in the meantime fails (a "do not recurse" flag tested before
+                      the tables are consulted) - never seen on the pinned library, kept as the witness
+                      that ContextFree constrains something
+
+   WHERE A QUESTION IS ASKED FROM (Contexts).  The statement quantifies over every built-in or
+   registered level without saying where the caller stands, so the answers of the level API are a
+   function of the REGISTRY ONLY.  A caller may stand "outside" (an ordinary call), or inside the
+   library's own writing: in the Write of the destination the default logger uses while ParseLevel
+   reports an unknown name ("warn"; "warn-go": another goroutine asks at that moment), in the Write
+   of a destination receiving an ordinary record ("rec"), in the String method of a value that is
+   being formatted for a record ("val").  LookupIn(dev, c, s, x) is ParseLevel(x) asked in context
+   c; with Deviations = {} it does not look at c - that IS the property (ContextFree,
+   AnswersEverywhere), and the deviation above shows what would contradict it.
 
    Bounds / assumptions: case folding is modelled for ASCII and Latin-1 letters only (other
    characters used in titles are caseless); titles contain no characters that need a JSON
@@ -71,7 +86,10 @@ CONSTANTS
 VARIABLES reg, last
 vars == <<reg, last>>
 
-AllDeviations == {"ParseFolds", "JSONNoUnquote", "TagBytes", "ErrDevNoArg"}
+AllDeviations == {"ParseFolds", "JSONNoUnquote", "TagBytes", "ErrDevNoArg", "BusyWhileReporting"}
+
+Contexts  == {"outside", "warn", "warn-go", "rec", "val"}   \* where a question is asked from
+Reporting == {"warn", "warn-go"}                           \* ... while ParseLevel reports an unknown name
 
 ERR == -9999                       \* "the call returned an error"
 Gateable == Panic..Trace           \* treated-as targets whose meaning the statement fixes
@@ -202,6 +220,14 @@ UnmarshalJSON(dev, s, x) ==
     IF "JSONNoUnquote" \in dev THEN ParseSet(dev, s, x)
     ELSE IF IsQuoted(x) THEN ParseSet(dev, s, Unquote(x)) ELSE {ERR}
 
+\* the same calls made in context c: the context does not matter (deviation: see the header)
+LookupIn(dev, c, s, x) ==
+    IF "BusyWhileReporting" \in dev /\ c \in Reporting THEN {ERR} ELSE ParseSet(dev, s, x)
+UnmarshalTextIn(dev, c, s, x) == LookupIn(dev, c, s, x)
+UnmarshalJSONIn(dev, c, s, x) ==
+    IF "JSONNoUnquote" \in dev THEN LookupIn(dev, c, s, x)
+    ELSE IF IsQuoted(x) THEN LookupIn(dev, c, s, Unquote(x)) ELSE {ERR}
+
 HasCustomTag(s, l, n) == l \in Registered(s) /\ s.ctag[l][n] # <<>>
 ShortTag(dev, s, l, n) ==
     IF HasCustomTag(s, l, n) THEN s.ctag[l][n]
@@ -233,6 +259,15 @@ Spec == Init /\ [][Next]_vars
 NameRoundTrip == \A l \in Vals(reg) : ParseSet(Deviations, reg, reg.name[l]) = {l}
 TextRoundTrip == \A l \in Vals(reg) : UnmarshalText(Deviations, reg, MarshalText(reg, l)) = {l}
 JSONRoundTrip == \A l \in Vals(reg) : UnmarshalJSON(Deviations, reg, MarshalJSON(reg, l)) = {l}
+
+\* the three round trips of every level and the answer to every registered name are the same
+\* wherever the caller stands (the registry's answers depend on the registry only)
+ContextFree == \A c \in Contexts, l \in Vals(reg) :
+                  /\ LookupIn(Deviations, c, reg, reg.name[l]) = {l}
+                  /\ UnmarshalTextIn(Deviations, c, reg, MarshalText(reg, l)) = {l}
+                  /\ UnmarshalJSONIn(Deviations, c, reg, MarshalJSON(reg, l)) = {l}
+AnswersEverywhere == \A c \in Contexts, x \in DOMAIN reg.keys :
+                        LookupIn({}, c, reg, x) = ParseSet({}, reg, x)
 
 ShortTagLen == \A l \in Registered(reg), n \in 1..5 :
                   ~HasCustomTag(reg, l, n) => IsChars(ShortTag(Deviations, reg, l, n), n)
